@@ -626,11 +626,12 @@ def _accumulate(ismax):
 
 
 def np_choose(I, a, k):
-    """numpy.choose(mask, (c0, c1)) with a boolean / 0-1 selector of concrete length: c1[i] where mask[i] else c0[i]"""
+    """numpy.choose(sel, choices) with a selector of concrete length: out[i] = choices[sel[i]][i] (scalar choices
+    broadcast); a boolean selector counts as 0 / 1; a symbolic selector entry gives an if-then-else chain"""
     sel = Mo.concrete_iter(I, a[0])
     choices = Mo.concrete_iter(I, a[1])
-    if sel is None or choices is None or len(choices) != 2 or k:
-        raise Unsupported('numpy.choose (only two choices, concrete length)')
+    if sel is None or choices is None or not choices or k:
+        raise Unsupported('numpy.choose (concrete length only)')
     cols = []
     for c in choices:
         ci = Mo.concrete_iter(I, c) if (Mo.is_list(c) or isinstance(c, tuple)) else [c] * len(sel)
@@ -640,11 +641,66 @@ def np_choose(I, a, k):
     out = []
     for i, m in enumerate(sel):
         if isinstance(m, SV):
-            out.append(I.ite(zbool(m) if m.kind == 'bool' else (zint(m) != 0), cols[1][i], cols[0][i]))
+            if m.kind == 'bool':
+                if len(cols) != 2:
+                    raise Unsupported('numpy.choose: boolean selector with other than two choices')
+                out.append(I.ite(zbool(m), cols[1][i], cols[0][i]))
+                continue
+            if not I.st.branch(z3.And(zint(m) >= 0, zint(m) < len(cols))):
+                raise PyExc('ValueError', 'invalid entry in choice array')
+            out.append(_sel([c[i] for c in cols], zint(m)))
         else:
-            out.append(cols[1][i] if m else cols[0][i])
+            j = int(m)
+            if not 0 <= j < len(cols):
+                raise PyExc('ValueError', 'invalid entry in choice array')
+            out.append(cols[j][i])
     r = I.st.alloc('clist', out, nd=True)
     return _as_dtype(I, r, None)
+
+
+def _size_of(k, a, pos):
+    size = k.get('size', a[pos] if len(a) > pos else None)
+    if size is None:
+        return None
+    if isinstance(size, int) and not isinstance(size, bool):
+        return (size,)
+    if isinstance(size, tuple) and len(size) == 1 and isinstance(size[0], int):
+        return size
+    raise Unsupported('random draw of shape %r' % (size,))
+
+
+def np_random_uniform(I, a, k):
+    """numpy.random.uniform(low, high, size): arbitrary reals in [low, high) (one per entry; no distributional claim)"""
+    lo = a[0] if a else k.get('low', 0.0)
+    hi = a[1] if len(a) > 1 else k.get('high', 1.0)
+    size = _size_of(k, a, 2)
+    if numkind(lo) is None or numkind(hi) is None:
+        raise Unsupported('numpy.random.uniform with array limits')
+
+    def one():
+        v = _draw(I, 'np_uniform', 'real')
+        l_, h_ = zreal(lo), zreal(hi)
+        I.st.assume(z3.And(v.t >= l_, z3.Or(v.t < h_, z3.And(l_ == h_, v.t == l_))))
+        return v
+    if size is None:
+        return one()
+    return I.st.alloc('clist', [one() for _ in range(size[0])], nd=True)
+
+
+def np_random_choice(I, a, k):
+    """numpy.random.choice(n, size): arbitrary integers in [0, n)"""
+    n = a[0]
+    size = _size_of(k, a, 1)
+    if numkind(n) not in ('int',) or set(k) - {'size'}:
+        raise Unsupported('numpy.random.choice of a sequence / with options')
+
+    def one():
+        v = _draw(I, 'np_choice', 'int')
+        I.st.assume(z3.And(v.t >= 0, v.t < zint(n)))
+        return v
+    if size is None:
+        return one()
+    return I.st.alloc('clist', [one() for _ in range(size[0])], nd=True)
 
 
 def b_pow(I, a, k):
@@ -1040,6 +1096,35 @@ def np_max(I, a, k, ismax=True):
     return b_max(I, [x], {}, ismax)
 
 
+def np_argext(I, a, k, ismin=True):
+    """argmin / argmax of a concrete-shaped array (optionally along an axis): the index of the FIRST extremal entry; every
+    comparison it depends on is decided (one path per outcome), so the index is concrete on each path"""
+    if set(k) - {'axis'} or len(a) > 2:
+        raise Unsupported('argmin/argmax with options')
+
+    def f(vals):
+        if not vals:
+            raise PyExc('ValueError', 'attempt to get argmin of an empty sequence')
+        best = 0
+        for j in range(1, len(vals)):
+            c = Mo.compare(I, ast.Lt() if ismin else ast.Gt(), vals[j], vals[best])
+            t = I.truth_term(c)
+            if t if isinstance(t, bool) else I.st.branch(t):
+                best = j
+        return best
+    return nd_axis_reduce(I, a[0], _axis_of(a, k), f, 'argmin/argmax')
+
+
+def np_intersect1d(I, a, k):
+    """sorted unique values present in both (concrete integers only: index sets)"""
+    xs = Mo.concrete_iter(I, a[0])
+    ys = Mo.concrete_iter(I, a[1])
+    ok = lambda v: isinstance(v, int) and not isinstance(v, bool)       # noqa: E731
+    if xs is None or ys is None or k or len(a) > 2 or not all(ok(v) for v in xs + ys):
+        raise Unsupported('numpy.intersect1d of symbolic values')
+    return I.st.alloc('clist', sorted(set(xs) & set(ys)), nd=True)
+
+
 def np_ptp(I, a, k):
     x = a[0]
     if set(k) - {'axis'} or len(a) > 2:
@@ -1357,6 +1442,19 @@ def np_isinf(I, a, k):
     return SV(z3.Or(t == INF, t == -INF), 'bool')
 
 
+def np_isnan(I, a, k):
+    x = a[0]
+    if Mo.is_list(x):
+        return Mo.elementwise1(I, x, lambda y: np_isnan(I, [y], {}))
+    if x is NAN:
+        return True
+    if numkind(x) is None:
+        raise Unsupported('numpy.isnan of %r' % (x,))
+    if isinstance(x, float) and x != x:
+        return True
+    return False                         # the reals of the model have no NaN (assumption listed in every evidence file)
+
+
 def np_log(I, a, k):
     x = a[0]
     t = zreal(x)
@@ -1449,10 +1547,14 @@ def lib_lookup(I, dotted):
         'numpy.take': Builtin('numpy.take', np_take),
         'numpy.seterr': Builtin('numpy.seterr', np_seterr),
         'numpy.isinf': Builtin('numpy.isinf', np_isinf),
+        'numpy.isnan': Builtin('numpy.isnan', np_isnan),
         'numpy.log': Builtin('numpy.log', np_log),
         'numpy.ndarray': Builtin('numpy.ndarray', lambda I_, a, k: _unsup('ndarray()')),
         'numpy.sum': Builtin('numpy.sum', np_sum),
         'numpy.ptp': Builtin('numpy.ptp', np_ptp),
+        'numpy.intersect1d': Builtin('numpy.intersect1d', np_intersect1d),
+        'numpy.argmin': Builtin('numpy.argmin', lambda I_, a, k: np_argext(I_, a, k, True)),
+        'numpy.argmax': Builtin('numpy.argmax', lambda I_, a, k: np_argext(I_, a, k, False)),
         'numpy.cumsum': Builtin('numpy.cumsum', np_cumsum),
         'numpy.split': Builtin('numpy.split', np_split),
         'numpy.triu_indices': Builtin('numpy.triu_indices', np_triu_indices),
@@ -1473,6 +1575,8 @@ def lib_lookup(I, dotted):
         'numpy.random.rand': Builtin('numpy.random.rand', np_random_rand),
         'numpy.random.random': Builtin('numpy.random.random', lambda I_, a, k: np_random_rand(I_, list(a[0]) if a and isinstance(a[0], tuple) else list(a), {})),
         'random.sample': Builtin('random.sample', rnd_sample),
+        'numpy.random.uniform': Builtin('numpy.random.uniform', np_random_uniform),
+        'numpy.random.choice': Builtin('numpy.random.choice', np_random_choice),
         'random.randint': Builtin('random.randint', rnd_randint),
         'random.uniform': Builtin('random.uniform', rnd_uniform),
         'random.randrange': Builtin('random.randrange', rnd_randrange),
